@@ -278,8 +278,37 @@ fn pick_weighted<'a, T>(r: &mut Rng, xs: &'a [(u64, T)]) -> &'a T {
     &xs[0].1
 }
 
+/// Enumerated sub-space of C18: every AH value 0..=255 for both interrupts, one run each,
+/// fault-free, identical for all seeds.
+fn ah_sweep_case(seed: u64, run: u64, stats: &mut Stats) -> Case {
+    let int_no = if run < 256 { "0x10" } else { "0x21" };
+    let ah = run % 256;
+    let mk = |t: &str, e: Vec<&'static str>| SrcLine { text: t.to_owned(), ref_text: t.to_owned(), emits: e.clone(), ref_emits: e };
+    let lines = vec![
+        mk("start:", vec![]),
+        mk("mov cx, 2", vec!["plain"]),
+        mk("mov dx, 0x0341", vec!["plain"]),
+        mk("mov bx, 0x0341", vec!["plain"]),
+        mk("mov byte [bx], 4", vec!["plain"]),
+        mk(&format!("mov ax, 0x{:02x}41", ah), vec!["plain"]),
+        mk(&format!("int {}", int_no), vec![if run < 256 { "int10" } else { "int21" }]),
+        mk("mov si, 1", vec!["plain"]),
+    ];
+    let prog = Program { lines, final_newline: true, crlf: false, tags: vec!["ah_sweep".to_owned()], svc_reads: 1 };
+    let mut scn = Scenario::new(prog.render().as_bytes());
+    scn.stdin.bytes = Bytes(b"hello\nworld\n".to_vec());
+    let mut case = Case::new("C18", "sweep", seed, run, scn);
+    case.gen = Some(prog.info());
+    case.program = Some(prog.to_ser());
+    Stats::bump(&mut stats.exhaustive_parts, "ah_sweep_512", 1);
+    case
+}
+
 /// Generation phase: the only place random numbers are drawn.
 pub fn make_case(prop: &str, seed: u64, run: u64, stats: &mut Stats) -> Option<Case> {
+    if prop == "C18" && run < 512 {
+        return Some(ah_sweep_case(seed, run, stats));
+    }
     let rs = run_seed(seed, prop, run);
     let mut r = Rng::new(rs);
     let faulted = run % 2 == 1;
